@@ -278,6 +278,43 @@ def rule_r4(rep, program, runs, prop=PROP, rule="R4"):
     return r
 
 
+def rule_r10(rep, program: Program):
+    """Reversibility is a property of one map Psi_t: the composition of sub-steps a step applies must be the same
+    whatever the state.  A handler inside a step that swallows an integrator / solver error and carries on with other
+    sub-steps (retry with a smaller step, fall back to another scheme) makes the map depend on where the solver happens to
+    converge: Psi_t from z0 but Psi_{t/2} o Psi_{t/2} back from z1 - each branch reversible on its own, the step not."""
+    r = rep.rule("R10", "the sub-step composition of a step does not depend on the state: no handler inside an integrator step swallows an integrator / solver error and continues with other sub-steps", floor=4)
+    caught = {"ConvergenceError", "IntegratorError", "NonReversibleStepError", "Error", "Exception", "BaseException", "LinAlgError", "ValueError", "RuntimeError"}
+    seen = set()
+    for k in program.subclasses("Integrator"):
+        for c in k.mro:
+            for mname, m in c.methods.items():
+                if m.qualname in seen or not (mname == "_step" or mname.startswith(("_step_", "_h2_flow", "_project"))):
+                    continue
+                seen.add(m.qualname)
+                tries = [n for n in ast.walk(m.node) if isinstance(n, ast.Try)]
+                r.inst({"method": m.qualname, "try statements": len(tries)})
+                for t in tries:
+                    for h in t.handlers:
+                        names = []
+                        if h.type is None:
+                            names = ["BaseException"]
+                        elif isinstance(h.type, ast.Tuple):
+                            names = [norm(x).split(".")[-1] for x in h.type.elts]
+                        else:
+                            names = [norm(h.type).split(".")[-1]]
+                        if not set(names) & caught:
+                            continue
+                        ends_raise = bool(h.body) and isinstance(h.body[-1], ast.Raise)
+                        if not ends_raise:
+                            r.violate(prop_of(rep), f"{m.qualname}:fallback-after:{','.join(names)}", f"{m.qualname} catches {names} and carries on (`{norm(h.body[0])[:50] if h.body else 'pass'}` ...): which composition of sub-steps a step applies then depends on whether a solve converges from the current state, so the step is no longer one map with Psi_t^-1 = R Psi_t R - n steps forward and n steps back can end away from the start without any error being raised", node=h, file=m.file)
+    return r
+
+
+def prop_of(rep):
+    return PROP
+
+
 def run(rep, program: Program, tier: str) -> None:
     rep.explanation = (
         "Abstract execution of every concrete integrator's _step on a symbolic state and time "
@@ -291,6 +328,7 @@ def run(rep, program: Program, tier: str) -> None:
         "numeric closeness of the round trip (tolerances) is not decided",
         "a cotangent projection after a flow is treated as part of that (self-adjoint) constrained sub-step; the pairing itself is checked by C04-R4",
     ]
+    rep.isolate(rule_r10, rep, program)
     runs = list(integrator_runs(program, tier))
     rep.isolate(rule_r1_r2, rep, program)
     rep.isolate(rule_r3, rep, program, runs)
@@ -312,3 +350,6 @@ def run(rep, program: Program, tier: str) -> None:
     # a force that accumulates into the cached gradient differs between the closing half-kick of one step and the opening
     # half-kick of the reversed step: the half-kicks no longer cancel (shared with C09-R9)
     rep.isolate(c09.rule_r9, rep, program, prop=PROP, rule="R8")
+    # the constrained step keeps a copy of the previous state for its projection; a cached Jacobian that aliases the
+    # position array is changed by the in-place flow and the step is no longer reversible (shared with C09-R12)
+    rep.isolate(c09.rule_r12, rep, program, prop=PROP, rule="R9")
